@@ -50,9 +50,9 @@ DoTouch(e) ==
             \* objects compiled from the file (or from a header it is included by), and objects compiled
             \* from a generated source whose generating step is downstream of the file
             /\ omust' = omust \cup { o \in Objs(script) : ObjReadsFile(script, o, e.f) \/ (o[2].t # "" /\ ReadsFile(script, o[2].t, e.f, "must"))
-                                                         \/ (\E h \in TargetsOf(Decl(script, o[1]).ins) : ReadsFile(script, h, e.f, "must")) }
+                                                         \/ (\E h \in TargetsOf(Decl(script, o[1]).ins) \cup CDeps(script, o) : ReadsFile(script, h, e.f, "must")) }
             /\ omay' = omay \cup { o \in Objs(script) : ObjReadsFile(script, o, e.f) \/ (o[2].t # "" /\ ReadsFile(script, o[2].t, e.f, "may"))
-                                                       \/ (\E h \in TargetsOf(Decl(script, o[1]).ins) : ReadsFile(script, h, e.f, "may")) }
+                                                       \/ (\E h \in TargetsOf(Decl(script, o[1]).ins) \cup CDeps(script, o) : ReadsFile(script, h, e.f, "may")) }
        ELSE \* the output of target e.t was modified: its consumers are out of date (not e.t itself)
             /\ must' = must \cup (((DownTarget(script, e.t, "must") \ {e.t}) \cap Acts(script)) \ SymCopies(script))
             /\ may' = may \cup ((DownTarget(script, e.t, "may") \ {e.t}) \cap Acts(script))
